@@ -1,5 +1,1003 @@
 package main
 
+// Replay: turn a solver model into a concrete call of the real function, injected as an in-package test
+// with `go test -overlay` (nothing is written under the repository).
+
+import (
+	"context"
+	"math/big"
+	"encoding/json"
+	"fmt"
+	"go/ast"
+	"go/token"
+	"go/types"
+	"os"
+	"os/exec"
+	"path/filepath"
+	"regexp"
+	"strconv"
+	"strings"
+	"time"
+)
+
+type rvalue struct {
+	goExpr string   // Go expression constructing the value
+	pre    []string // statements to run before (declarations)
+	ghost  string   // for readers: name of the []byte holding the file content
+}
+
+type replayCtx struct {
+	eng   *Engine
+	res   *UnitResult
+	o     *Obligation
+	u     *Unit
+	query string
+	n     int
+	pkg   *types.Package
+	notes []string
+	helpers []string
+	collect bool
+	want    []string
+	cache   map[string]string
+	bound   int64
+}
+
+func (rc *replayCtx) getValues(terms []string) (map[string]string, error) {
+	if len(terms) == 0 {
+		return map[string]string{}, nil
+	}
+	if rc.collect {
+		out := map[string]string{}
+		for _, t := range terms {
+			rc.want = append(rc.want, t)
+			out[t] = "1"
+		}
+		return out, nil
+	}
+	if rc.cache != nil {
+		out := map[string]string{}
+		for _, t := range terms {
+			v, ok := rc.cache[t]
+			if !ok {
+				return nil, fmt.Errorf("value of %s was not collected", t)
+			}
+			out[t] = v
+		}
+		return out, nil
+	}
+	return rc.solveValues(terms)
+}
+
+func (rc *replayCtx) solveValues(terms []string) (map[string]string, error) {
+	q := strings.TrimSuffix(rc.query, "(get-model)\n")
+	var b strings.Builder
+	b.WriteString(q)
+	for _, t := range terms {
+		fmt.Fprintf(&b, "(get-value (%s))\n", t)
+	}
+	dir := filepath.Join(rc.eng.verifDir, "out", "replaytmp")
+	os.MkdirAll(dir, 0o755)
+	rc.n++
+	file := filepath.Join(dir, fmt.Sprintf("%s-%d.smt2", sanitizeFile(rc.o.Name), rc.n))
+	os.WriteFile(file, []byte(b.String()), 0o644)
+	defer os.Remove(file)
+	ctx, cancel := context.WithTimeout(context.Background(), 30*time.Second)
+	defer cancel()
+	out, _ := exec.CommandContext(ctx, "z3-new", "-T:20", "smt.random_seed=0", file).CombinedOutput()
+	lines := strings.Split(string(out), "\n")
+	if len(lines) == 0 || strings.TrimSpace(lines[0]) != "sat" {
+		return nil, fmt.Errorf("solver did not reproduce sat when asked for values: %s", firstLines(string(out), 2))
+	}
+	text := strings.Join(lines[1:], "\n")
+	vals := map[string]string{}
+	// each get-value prints ((term value))
+	items := splitSexp(text)
+	if len(items) != len(terms) {
+		return nil, fmt.Errorf("unexpected get-value output (%d items for %d terms)", len(items), len(terms))
+	}
+	for i, it := range items {
+		inner := strings.TrimSpace(it)
+		inner = inner[1 : len(inner)-1] // strip outer parens -> (term value)
+		inner = strings.TrimSpace(inner)
+		parts := splitSexp(inner[1 : len(inner)-1])
+		if len(parts) < 2 {
+			return nil, fmt.Errorf("cannot parse value for %s", terms[i])
+		}
+		vals[terms[i]] = parts[len(parts)-1]
+	}
+	return vals, nil
+}
+
+var reBvHex = regexp.MustCompile(`^#x([0-9a-fA-F]+)$`)
+var reBvBin = regexp.MustCompile(`^#b([01]+)$`)
+
+func parseSMTInt(v string) (string, bool) {
+	v = strings.TrimSpace(v)
+	if m := reBvHex.FindStringSubmatch(v); m != nil {
+		n, err := strconv.ParseUint(m[1], 16, 64)
+		if err != nil {
+			return "", false
+		}
+		return strconv.FormatUint(n, 10), true
+	}
+	if m := reBvBin.FindStringSubmatch(v); m != nil {
+		n, err := strconv.ParseUint(m[1], 2, 64)
+		if err != nil {
+			return "", false
+		}
+		return strconv.FormatUint(n, 10), true
+	}
+	if strings.HasPrefix(v, "(- ") {
+		return "-" + strings.TrimSuffix(strings.TrimPrefix(v, "(- "), ")"), true
+	}
+	if _, err := strconv.ParseInt(v, 10, 64); err == nil {
+		return v, true
+	}
+	if _, err := strconv.ParseUint(v, 10, 64); err == nil {
+		return v, true
+	}
+	return "", false
+}
+
+func (rc *replayCtx) typeStr(t types.Type) (string, bool) {
+	ok := true
+	s := types.TypeString(t, func(p *types.Package) string {
+		if p == rc.pkg {
+			return ""
+		}
+		ok = false
+		return p.Name()
+	})
+	return s, ok
+}
+
+// intLit renders an integer model value as a Go expression of type t (handles signed BV values).
+func intLit(v string, t types.Type, bv bool) string {
+	bits, signed, _ := intInfo(t)
+	if !bv {
+		if bi, ok := new(big.Int).SetString(v, 10); ok {
+			return wrapBig(bi, bits, signed).String()
+		}
+	}
+	if bv && signed {
+		if n, err := strconv.ParseUint(v, 10, 64); err == nil && bits <= 64 {
+			if bits < 64 {
+				if n >= 1<<(uint(bits)-1) {
+					return fmt.Sprintf("%d", int64(n)-int64(1)<<uint(bits))
+				}
+			} else {
+				return fmt.Sprintf("%d", int64(n))
+			}
+		}
+	}
+	return v
+}
+
+// build constructs a Go value of type t equal to the model value of SMT term s.
+func (rc *replayCtx) build(s string, t types.Type, depth int) (rvalue, error) {
+	u := rc.u
+	c := u.c
+	if depth > 4 {
+		return rvalue{}, fmt.Errorf("value too deep")
+	}
+	ts, ok := rc.typeStr(t)
+	if !ok {
+		// a few external types we know how to build
+		if n, isNamed := t.(*types.Named); !isNamed || n.Obj().Pkg() == nil {
+			return rvalue{}, fmt.Errorf("type %s not constructible in the package test", t)
+		}
+	}
+	if _, _, isInt := intInfo(t); isInt {
+		vals, err := rc.getValues([]string{s})
+		if err != nil {
+			return rvalue{}, err
+		}
+		v, ok := parseSMTInt(vals[s])
+		if !ok {
+			return rvalue{}, fmt.Errorf("cannot parse integer value %q", vals[s])
+		}
+		return rvalue{goExpr: fmt.Sprintf("%s(%s)", ts, intLit(v, t, c.bv))}, nil
+	}
+	if isBoolType(t) {
+		vals, err := rc.getValues([]string{s})
+		if err != nil {
+			return rvalue{}, err
+		}
+		return rvalue{goExpr: vals[s]}, nil
+	}
+	if isErrorType(t) {
+		vals, err := rc.getValues([]string{s})
+		if err != nil {
+			return rvalue{}, err
+		}
+		if vals[s] == "0" {
+			return rvalue{goExpr: "error(nil)"}, nil
+		}
+		return rvalue{goExpr: `error(fmt.Errorf("replay error"))`}, nil
+	}
+	if isStringType(t) {
+		term := "(gstr.len " + s + ")"
+		vals, err := rc.getValues([]string{term})
+		if err != nil {
+			return rvalue{}, err
+		}
+		lnS, _ := parseSMTInt(vals[term])
+		ln, _ := strconv.ParseInt(lnS, 10, 64)
+		if ln < 0 || ln > 1<<16 {
+			return rvalue{}, fmt.Errorf("string of length %d not replayable", ln)
+		}
+		return rvalue{goExpr: fmt.Sprintf("%s(strings.Repeat(\"a\", %d))", ts, ln)}, nil
+	}
+	switch ut := t.Underlying().(type) {
+	case *types.Slice:
+		elem := ut.Elem()
+		if _, _, isInt := intInfo(elem); !isInt {
+			if _, isStruct := elem.Underlying().(*types.Struct); !isStruct {
+				return rvalue{}, fmt.Errorf("slice of %s not supported in replay", elem)
+			}
+		}
+		vals, err := rc.getValues([]string{sLen(s), sRef(s)})
+		if err != nil {
+			return rvalue{}, err
+		}
+		lnS, ok := parseSMTInt(vals[sLen(s)])
+		if !ok {
+			return rvalue{}, fmt.Errorf("cannot parse slice length")
+		}
+		ln, _ := strconv.ParseInt(lnS, 10, 64)
+		if rc.collect {
+			ln = rc.bound
+			if depth > 0 && ln > 16 {
+				ln = 16
+			}
+		}
+		if ln > rc.bound || (depth > 0 && ln > 16) {
+			return rvalue{}, fmt.Errorf("model needs a slice of %d elements: too large to replay", ln)
+		}
+		if vals[sRef(s)] == "0" && ln == 0 {
+			return rvalue{goExpr: fmt.Sprintf("%s(nil)", ts)}, nil
+		}
+		h := u.elemHeap(elem)
+		blk := fmt.Sprintf("(select %s@0 %s)", h, sRef(s))
+		var elems []string
+		if _, _, isInt := intInfo(elem); isInt {
+			var terms []string
+			for i := int64(0); i < ln; i++ {
+				terms = append(terms, fmt.Sprintf("(select %s %s)", blk, c.idxAdd(sOff(s), c.idxConst(i))))
+			}
+			ev, err := rc.getValues(terms)
+			if err != nil {
+				return rvalue{}, err
+			}
+			for _, tm := range terms {
+				v, ok := parseSMTInt(ev[tm])
+				if !ok {
+					return rvalue{}, fmt.Errorf("cannot parse element value %q", ev[tm])
+				}
+				elems = append(elems, intLit(v, elem, c.bv))
+			}
+		} else {
+			for i := int64(0); i < ln && i < 64; i++ {
+				ev, err := rc.build(fmt.Sprintf("(select %s %s)", blk, c.idxAdd(sOff(s), c.idxConst(i))), elem, depth+1)
+				if err != nil {
+					return rvalue{}, err
+				}
+				elems = append(elems, ev.goExpr)
+			}
+		}
+		return rvalue{goExpr: fmt.Sprintf("%s{%s}", ts, strings.Join(elems, ", "))}, nil
+	case *types.Array:
+		if ut.Len() > 4096 {
+			return rvalue{}, fmt.Errorf("array too large")
+		}
+		var elems []string
+		for i := int64(0); i < ut.Len(); i++ {
+			ev, err := rc.build(fmt.Sprintf("(select %s %s)", s, c.idxConst(i)), ut.Elem(), depth+1)
+			if err != nil {
+				return rvalue{}, err
+			}
+			elems = append(elems, ev.goExpr)
+		}
+		return rvalue{goExpr: fmt.Sprintf("%s{%s}", ts, strings.Join(elems, ", "))}, nil
+	case *types.Struct:
+		if !ok {
+			return rvalue{}, fmt.Errorf("struct type %s is not from the package under test", t)
+		}
+		name := c.sortOf(t)
+		var fs []string
+		var pre []string
+		for i := 0; i < ut.NumFields(); i++ {
+			f := ut.Field(i)
+			fv, err := rc.build(fmt.Sprintf("(%s.%s %s)", name, sanitize(f.Name()), s), f.Type(), depth+1)
+			if err != nil {
+				// fields we cannot build keep their zero value
+				rc.notes = append(rc.notes, fmt.Sprintf("field %s left zero: %v", f.Name(), err))
+				continue
+			}
+			pre = append(pre, fv.pre...)
+			fs = append(fs, fmt.Sprintf("%s: %s", f.Name(), fv.goExpr))
+		}
+		return rvalue{goExpr: fmt.Sprintf("%s{%s}", ts, strings.Join(fs, ", ")), pre: pre}, nil
+	case *types.Pointer:
+		vals, err := rc.getValues([]string{s})
+		if err != nil {
+			return rvalue{}, err
+		}
+		if vals[s] == "0" && !rc.collect {
+			return rvalue{goExpr: fmt.Sprintf("(%s)(nil)", ts)}, nil
+		}
+		// external reader types used as files
+		if rd, ok := rc.readerValue(s, t); ok {
+			return rd, nil
+		}
+		pointee := ut.Elem()
+		var cell string
+		if at, isArr := pointee.Underlying().(*types.Array); isArr {
+			cell = fmt.Sprintf("(select %s@0 %s)", u.elemHeap(at.Elem()), s)
+		} else {
+			cell = fmt.Sprintf("(select %s@0 %s)", u.ptrHeap(pointee), s)
+		}
+		pv, err := rc.build(cell, pointee, depth+1)
+		if err != nil {
+			return rvalue{}, err
+		}
+		rc.n++
+		nm := fmt.Sprintf("cell%d", rc.n)
+		pre := append(pv.pre, fmt.Sprintf("%s := %s", nm, pv.goExpr))
+		return rvalue{goExpr: "&" + nm, pre: pre}, nil
+	case *types.Interface:
+		if rd, ok := rc.readerValue(s, t); ok {
+			return rd, nil
+		}
+	}
+	return rvalue{}, fmt.Errorf("type %s not supported in replay", t)
+}
+
+// readerValue builds an io.ReaderAt (bytes.Reader / io.SectionReader) from the ghost file content of the model.
+func (rc *replayCtx) readerValue(s string, t types.Type) (rvalue, bool) {
+	name := types.TypeString(t, nil)
+	if name != "io.ReaderAt" && name != "*io.SectionReader" && name != "io.Reader" {
+		return rvalue{}, false
+	}
+	if !rc.u.c.declared["rd.size"] {
+		return rvalue{}, false
+	}
+	c := rc.u.c
+	vals, err := rc.getValues([]string{"(rd.size " + s + ")"})
+	if err != nil {
+		return rvalue{}, false
+	}
+	szS, ok := parseSMTInt(vals["(rd.size "+s+")"])
+	if !ok {
+		return rvalue{}, false
+	}
+	sz, _ := strconv.ParseInt(szS, 10, 64)
+	if sz < 0 {
+		sz = 0
+	}
+	if rc.collect {
+		sz = rc.bound
+	}
+	if sz > rc.bound {
+		rc.notes = append(rc.notes, fmt.Sprintf("ghost file of %d bytes truncated to %d for replay", sz, rc.bound))
+		sz = rc.bound
+	}
+	var terms []string
+	for i := int64(0); i < sz; i++ {
+		terms = append(terms, fmt.Sprintf("(select (rd.content %s) %s)", s, c.idxConst(i)))
+	}
+	ev, err := rc.getValues(terms)
+	if err != nil {
+		return rvalue{}, false
+	}
+	var bs []string
+	for _, tm := range terms {
+		v, _ := parseSMTInt(ev[tm])
+		bs = append(bs, v)
+	}
+	rc.n++
+	g := fmt.Sprintf("ghostfile%d", rc.n)
+	pre := []string{fmt.Sprintf("%s := []byte{%s}", g, strings.Join(bs, ", "))}
+	expr := fmt.Sprintf("bytes.NewReader(%s)", g)
+	if name == "*io.SectionReader" {
+		expr = fmt.Sprintf("io.NewSectionReader(bytes.NewReader(%s), 0, int64(len(%s)))", g, g)
+	}
+	return rvalue{goExpr: expr, pre: pre, ghost: g}, true
+}
+
 func replayObligation(eng *Engine, res *UnitResult, o *Obligation) (bool, string) {
-	return false, "no replay generator for this obligation kind yet"
+	if res.Pkg == "theory" || res.unit == nil || res.unit.decl == nil {
+		return false, "obligation is not about a function of the repository"
+	}
+	u := res.unit
+	rc := &replayCtx{eng: eng, res: res, o: o, u: u, query: finalQuery(res.Ctx, o.Query), pkg: u.pkg.Types}
+	sig := u.sig
+	rc.preferSmall()
+	if sig.TypeParams() != nil && sig.TypeParams().Len() > 0 {
+		return false, "generic function: no replay"
+	}
+	var pre []string
+	var args []string
+	ghostOf := map[string]string{}
+	recvExpr := ""
+	bind := func(v *types.Var) (string, error) {
+		if v.Name() == "" || v.Name() == "_" {
+			z, ok := rc.typeStr(v.Type())
+			if !ok {
+				return "", fmt.Errorf("unnamed parameter of external type")
+			}
+			return fmt.Sprintf("*new(%s)", z), nil
+		}
+		sym := u.paramSyms[v.Name()]
+		rv, err := rc.build(sym, v.Type(), 0)
+		if err != nil {
+			return "", fmt.Errorf("parameter %s: %v", v.Name(), err)
+		}
+		pre = append(pre, rv.pre...)
+		ts, ok := rc.typeStr(v.Type())
+		if !ok {
+			ts = types.TypeString(v.Type(), func(p *types.Package) string { return p.Name() })
+		}
+		pre = append(pre, fmt.Sprintf("var a_%s %s = %s", v.Name(), ts, rv.goExpr))
+		pre = append(pre, fmt.Sprintf("_ = a_%s", v.Name()))
+		if rv.ghost != "" {
+			ghostOf[v.Name()] = rv.ghost
+		}
+		return "a_" + v.Name(), nil
+	}
+	bindAll := func() error {
+		pre, args, recvExpr = nil, nil, ""
+		if sig.Recv() != nil {
+			r, err := bind(sig.Recv())
+			if err != nil {
+				return err
+			}
+			recvExpr = r
+		}
+		for i := 0; i < sig.Params().Len(); i++ {
+			a, err := bind(sig.Params().At(i))
+			if err != nil {
+				return err
+			}
+			if sig.Variadic() && i == sig.Params().Len()-1 {
+				a += "..."
+			}
+			args = append(args, a)
+		}
+		return nil
+	}
+	// pass 1: collect every term whose value is needed; one solver call; pass 2: construct
+	rc.collect = true
+	if err := bindAll(); err != nil {
+		return false, err.Error()
+	}
+	rc.collect = false
+	rc.notes = nil
+	vals, err := rc.solveValues(uniqStrings(rc.want))
+	if err != nil {
+		return false, err.Error()
+	}
+	rc.cache = vals
+	rc.n = 0
+	if err := bindAll(); err != nil {
+		return false, err.Error()
+	}
+	call := u.decl.Name.Name + "(" + strings.Join(args, ", ") + ")"
+	if recvExpr != "" {
+		call = recvExpr + "." + call
+	}
+	var results []string
+	for i := 0; i < sig.Results().Len(); i++ {
+		results = append(results, fmt.Sprintf("r%d", i))
+	}
+	// postcondition in Go, when the failed obligation is a post
+	postCheck := ""
+	if o.Group == "post" && u.ct != nil {
+		var idx int
+		if _, err := fmt.Sscanf(o.Kind, "post#%d", &idx); err == nil && idx < len(u.ct.Ensures) {
+			tr := &specTranslator{u: u, rename: map[string]string{}, ghostOf: ghostOf}
+			for i := 0; i < sig.Params().Len(); i++ {
+				if n := sig.Params().At(i).Name(); n != "" && n != "_" {
+					tr.rename[n] = "a_" + n
+				}
+			}
+			if sig.Recv() != nil && sig.Recv().Name() != "" {
+				tr.rename[sig.Recv().Name()] = "a_" + sig.Recv().Name()
+			}
+			for i := 0; i < sig.Results().Len(); i++ {
+				tr.rename[fmt.Sprintf("result%d", i)] = fmt.Sprintf("r%d", i)
+				if n := sig.Results().At(i).Name(); n != "" && n != "_" {
+					tr.rename[n] = fmt.Sprintf("r%d", i)
+				}
+			}
+			if sig.Results().Len() >= 1 {
+				tr.rename["result"] = "r0"
+			}
+			g, err := tr.translate(u.ct.Ensures[idx].Expr)
+			if err != nil {
+				return false, "postcondition not executable in replay: " + err.Error()
+			}
+			postCheck = g
+			pre = append(pre, tr.preCall...)
+			rc.helpers = append(rc.helpers, tr.helpers...)
+			if tr.needOld {
+				// snapshots of the arguments for old(...)
+				snap := func(v *types.Var) {
+					if v == nil || v.Name() == "" || v.Name() == "_" {
+						return
+					}
+					a := "a_" + v.Name()
+					switch ut := v.Type().Underlying().(type) {
+					case *types.Slice:
+						ts, _ := rc.typeStr(v.Type())
+						pre = append(pre, fmt.Sprintf("old_%s := append(%s(nil), %s...)", a, ts, a))
+					case *types.Pointer:
+						ts, _ := rc.typeStr(ut.Elem())
+						pre = append(pre, fmt.Sprintf("old_%s := new(%s)", a, ts), fmt.Sprintf("if %s != nil { *old_%s = *%s }", a, a, a))
+					default:
+						pre = append(pre, fmt.Sprintf("old_%s := %s", a, a))
+					}
+					pre = append(pre, fmt.Sprintf("_ = old_%s", a))
+				}
+				snap(sig.Recv())
+				for i := 0; i < sig.Params().Len(); i++ {
+					snap(sig.Params().At(i))
+				}
+			}
+		}
+	} else if o.Group != "safety" && o.Group != "pre" && o.Group != "overflow" {
+		return false, "obligation kind " + o.Group + " has no executable counterpart"
+	}
+	if o.Group == "pre" || o.Group == "overflow" {
+		// a violated callee precondition usually shows as a panic further down; try the call anyway
+	}
+	var b strings.Builder
+	fmt.Fprintf(&b, "package %s\n\nimport (\n\t\"bytes\"\n\t\"fmt\"\n\t\"io\"\n\t\"strings\"\n\t\"testing\"\n)\n\nvar _ = strings.Repeat\nvar _ = bytes.NewReader\nvar _ = io.EOF\nvar _ = fmt.Sprint\n\n", u.pkg.Types.Name())
+	b.WriteString("func vite[T any](c bool, a, b T) T {\n\tif c {\n\t\treturn a\n\t}\n\treturn b\n}\n\n")
+	for _, h := range rc.helpersFor(postCheck) {
+		b.WriteString(h)
+		b.WriteString("\n")
+	}
+	b.WriteString("func TestVerifReplay(t *testing.T) {\n")
+	for _, p := range pre {
+		b.WriteString("\t" + p + "\n")
+	}
+	b.WriteString("\tpanicked := true\n\tdefer func() {\n\t\tif panicked {\n\t\t\tfmt.Printf(\"REPLAY-PANIC: %v\\n\", recover())\n\t\t}\n\t}()\n")
+	if len(results) > 0 {
+		fmt.Fprintf(&b, "\t%s := %s\n", strings.Join(results, ", "), call)
+		for _, r := range results {
+			fmt.Fprintf(&b, "\t_ = %s\n", r)
+		}
+	} else {
+		fmt.Fprintf(&b, "\t%s\n", call)
+	}
+	b.WriteString("\tpanicked = false\n")
+	if postCheck != "" {
+		fmt.Fprintf(&b, "\tif !(%s) {\n\t\tfmt.Println(\"REPLAY-POST-VIOLATED\")\n\t} else {\n\t\tfmt.Println(\"REPLAY-POST-HOLDS\")\n\t}\n", postCheck)
+	} else {
+		b.WriteString("\tfmt.Println(\"REPLAY-NO-PANIC\")\n")
+	}
+	b.WriteString("}\n")
+	src := b.String()
+	// write and run through an overlay
+	dir := filepath.Join(eng.verifDir, "out", "replaytmp")
+	os.MkdirAll(dir, 0o755)
+	rc.n++
+	srcFile := filepath.Join(dir, fmt.Sprintf("%s_%d_replay_test.go", sanitizeFile(o.Name), rc.n))
+	os.WriteFile(srcFile, []byte(src), 0o644)
+	pkgDir := filepath.Dir(u.fset.Position(u.decl.Pos()).Filename)
+	target := filepath.Join(pkgDir, "zz_verif_replay_test.go")
+	ov, _ := json.Marshal(map[string]any{"Replace": map[string]string{target: srcFile}})
+	ovFile := srcFile + ".overlay.json"
+	os.WriteFile(ovFile, ov, 0o644)
+	ctx, cancel := context.WithTimeout(context.Background(), 300*time.Second)
+	defer cancel()
+	cmd := exec.CommandContext(ctx, "bash", "-c", fmt.Sprintf("ulimit -v 8388608; cd %q && go test -overlay %q -vet=off -v -count=1 -timeout 60s -run '^TestVerifReplay$' .", pkgDir, ovFile))
+	cmd.Env = append(os.Environ(), "GOFLAGS=-mod=mod", "GOPROXY=off", "GOSUMDB=off", "GOTOOLCHAIN=local")
+	out, _ := cmd.CombinedOutput()
+	text := string(out)
+	report := fmt.Sprintf("test source: %s\n%s\noutput:\n%s", srcFile, strings.Join(rc.notes, "\n"), firstLines(text, 30))
+	switch {
+	case strings.Contains(text, "REPLAY-PANIC"):
+		return o.Group != "post" || true, "the real function panics on the model's input\n" + report
+	case strings.Contains(text, "REPLAY-POST-VIOLATED"):
+		return true, "the real function returns a result that violates the contract clause on the model's input\n" + report
+	case strings.Contains(text, "REPLAY-POST-HOLDS"), strings.Contains(text, "REPLAY-NO-PANIC"):
+		return false, "the model's input does not make the real function fail (the failure depends on abstracted parts)\n" + report
+	}
+	return false, "replay did not run\n" + report
+}
+
+// preferSmall re-solves with bounds on slice lengths / string lengths so that the model is replayable.
+func (rc *replayCtx) preferSmall() {
+	u := rc.u
+	c := u.c
+	var syms []string
+	var nested []string
+	var walk func(term string, t types.Type, depth int)
+	walk = func(term string, t types.Type, depth int) {
+		if depth > 3 || t == nil {
+			return
+		}
+		switch ut := t.Underlying().(type) {
+		case *types.Slice:
+			if depth > 0 {
+				nested = append(nested, sLen(term))
+			} else {
+				syms = append(syms, sLen(term))
+			}
+			if _, isStruct := ut.Elem().Underlying().(*types.Struct); isStruct {
+				blk := fmt.Sprintf("(select %s@0 %s)", u.elemHeap(ut.Elem()), sRef(term))
+				for i := int64(0); i < 4; i++ {
+					walk(fmt.Sprintf("(select %s %s)", blk, c.idxAdd(sOff(term), c.idxConst(i))), ut.Elem(), depth+1)
+				}
+			}
+		case *types.Basic:
+			if isStringType(t) {
+				syms = append(syms, "(gstr.len "+term+")")
+			}
+		case *types.Struct:
+			name := c.sortOf(t)
+			for i := 0; i < ut.NumFields(); i++ {
+				f := ut.Field(i)
+				walk(fmt.Sprintf("(%s.%s %s)", name, sanitize(f.Name()), term), f.Type(), depth+1)
+			}
+		case *types.Pointer:
+			if _, isStruct := ut.Elem().Underlying().(*types.Struct); isStruct {
+				if n, ok := ut.Elem().(*types.Named); ok && n.Obj().Pkg() == rc.pkg {
+					walk(fmt.Sprintf("(select %s@0 %s)", u.ptrHeap(ut.Elem()), term), ut.Elem(), depth+1)
+				}
+			}
+		}
+	}
+	collect := func(v *types.Var) {
+		if v == nil {
+			return
+		}
+		sym, ok := u.paramSyms[v.Name()]
+		if !ok {
+			return
+		}
+		walk(sym, v.Type(), 0)
+	}
+	collect(u.sig.Recv())
+	for i := 0; i < u.sig.Params().Len(); i++ {
+		collect(u.sig.Params().At(i))
+	}
+	if c.declared["rd.size"] {
+		for i := 0; i < u.sig.Params().Len(); i++ {
+			v := u.sig.Params().At(i)
+			if sym, ok := u.paramSyms[v.Name()]; ok && u.c.sortOf(v.Type()) == "Int" {
+				syms = append(syms, "(rd.size "+sym+")")
+			}
+		}
+	}
+	rc.bound = 64
+	if len(syms)+len(nested) == 0 {
+		return
+	}
+	for _, bound := range []int64{64, 4096} {
+		var extra strings.Builder
+		for _, s := range syms {
+			fmt.Fprintf(&extra, "(assert %s)\n", c.idxLe(s, c.idxConst(bound)))
+		}
+		for _, s := range nested {
+			fmt.Fprintf(&extra, "(assert %s)\n", c.idxLe(s, c.idxConst(8)))
+		}
+		q := strings.Replace(rc.query, "(check-sat)\n", extra.String()+"(check-sat)\n", 1)
+		saved := rc.query
+		rc.query = q
+		if _, err := rc.solveValues([]string{"true"}); err == nil {
+			rc.bound = bound
+			return
+		}
+		rc.query = saved
+	}
+}
+
+func uniqStrings(ss []string) []string {
+	seen := map[string]bool{}
+	var out []string
+	for _, s := range ss {
+		if !seen[s] {
+			seen[s] = true
+			out = append(out, s)
+		}
+	}
+	return out
+}
+
+func (rc *replayCtx) helpersFor(post string) []string { return rc.helpers }
+
+// ---------- contract expression -> Go ----------
+
+type specTranslator struct {
+	u       *Unit
+	rename  map[string]string
+	ghostOf map[string]string
+	preCall []string
+	helpers []string
+	done    map[string]bool
+	n       int
+	bound   map[string]bool
+	inOld   bool
+	needOld bool
+}
+
+func (tr *specTranslator) translate(e ast.Expr) (string, error) {
+	switch x := e.(type) {
+	case *ast.ParenExpr:
+		s, err := tr.translate(x.X)
+		return "(" + s + ")", err
+	case *ast.BasicLit:
+		return x.Value, nil
+	case *ast.Ident:
+		if tr.bound[x.Name] {
+			return x.Name, nil
+		}
+		if r, ok := tr.rename[x.Name]; ok {
+			if tr.inOld {
+				return "old_" + r, nil
+			}
+			return r, nil
+		}
+		return x.Name, nil
+	case *ast.SelectorExpr:
+		b, err := tr.translate(x.X)
+		return b + "." + x.Sel.Name, err
+	case *ast.StarExpr:
+		b, err := tr.translate(x.X)
+		return "(*" + b + ")", err
+	case *ast.IndexExpr:
+		b, err := tr.translate(x.X)
+		if err != nil {
+			return "", err
+		}
+		i, err := tr.translate(x.Index)
+		return b + "[" + i + "]", err
+	case *ast.SliceExpr:
+		b, err := tr.translate(x.X)
+		if err != nil {
+			return "", err
+		}
+		lo, hi := "", ""
+		if x.Low != nil {
+			if lo, err = tr.translate(x.Low); err != nil {
+				return "", err
+			}
+		}
+		if x.High != nil {
+			if hi, err = tr.translate(x.High); err != nil {
+				return "", err
+			}
+		}
+		return b + "[" + lo + ":" + hi + "]", nil
+	case *ast.UnaryExpr:
+		a, err := tr.translate(x.X)
+		return "(" + x.Op.String() + a + ")", err
+	case *ast.BinaryExpr:
+		a, err := tr.translate(x.X)
+		if err != nil {
+			return "", err
+		}
+		b, err := tr.translate(x.Y)
+		return "(" + a + " " + x.Op.String() + " " + b + ")", err
+	case *ast.CallExpr:
+		id, ok := x.Fun.(*ast.Ident)
+		if !ok {
+			return "", fmt.Errorf("call of non-identifier")
+		}
+		switch id.Name {
+		case "__imp":
+			a, err := tr.translate(x.Args[0])
+			if err != nil {
+				return "", err
+			}
+			b, err := tr.translate(x.Args[1])
+			return "(!(" + a + ") || (" + b + "))", err
+		case "__iff":
+			a, err := tr.translate(x.Args[0])
+			if err != nil {
+				return "", err
+			}
+			b, err := tr.translate(x.Args[1])
+			return "((" + a + ") == (" + b + "))", err
+		case "__forall", "__exists":
+			return tr.quant(id.Name == "__forall", x)
+		case "old":
+			saved := tr.inOld
+			tr.inOld = true
+			s, err := tr.translate(x.Args[0])
+			tr.inOld = saved
+			tr.needOld = true
+			return s, err
+		case "ite":
+			var as []string
+			for _, a := range x.Args {
+				s, err := tr.translate(a)
+				if err != nil {
+					return "", err
+				}
+				as = append(as, s)
+			}
+			return "vite(" + strings.Join(as, ", ") + ")", nil
+		case "fresh":
+			return "true", nil
+		case "len", "cap":
+			a, err := tr.translate(x.Args[0])
+			return id.Name + "(" + a + ")", err
+		case "fsize", "fbyte":
+			rid, ok := x.Args[0].(*ast.Ident)
+			if !ok {
+				return "", fmt.Errorf("%s on a non-parameter reader", id.Name)
+			}
+			g, ok := tr.ghostOf[rid.Name]
+			if !ok {
+				return "", fmt.Errorf("no ghost file for %s", rid.Name)
+			}
+			if id.Name == "fsize" {
+				return "len(" + g + ")", nil
+			}
+			i, err := tr.translate(x.Args[1])
+			return g + "[" + i + "]", err
+		case "isErr":
+			a, err := tr.translate(x.Args[0])
+			if err != nil {
+				return "", err
+			}
+			b, err := tr.translate(x.Args[1])
+			return "errors.Is(" + a + ", " + b + ")", err
+		case "ref", "held", "unfold":
+			return "", fmt.Errorf("%s() has no executable counterpart", id.Name)
+		}
+		if strings.HasPrefix(id.Name, "res") && len(id.Name) == 4 {
+			return "", fmt.Errorf("function-parameter results are not executable")
+		}
+		// spec function -> Go helper
+		env := &SpecEnv{u: tr.u, cs: tr.u.cs, pkg: tr.u.pkg.Types}
+		if sf := env.specFunc(id.Name); sf != nil {
+			if err := tr.emitSpecFunc(sf); err != nil {
+				return "", err
+			}
+			var as []string
+			for _, a := range x.Args {
+				s, err := tr.translate(a)
+				if err != nil {
+					return "", err
+				}
+				as = append(as, s)
+			}
+			return "vspec_" + sf.Name + "(" + strings.Join(as, ", ") + ")", nil
+		}
+		// conversion
+		if len(x.Args) == 1 {
+			a, err := tr.translate(x.Args[0])
+			return id.Name + "(" + a + ")", err
+		}
+		return "", fmt.Errorf("unknown function %s", id.Name)
+	}
+	return "", fmt.Errorf("unsupported expression %T", e)
+}
+
+func (tr *specTranslator) emitSpecFunc(sf *SpecFunc) error {
+	if tr.done == nil {
+		tr.done = map[string]bool{}
+	}
+	if tr.done[sf.Name] {
+		return nil
+	}
+	tr.done[sf.Name] = true
+	if sf.Body == nil {
+		return fmt.Errorf("spec function %s is uninterpreted", sf.Name)
+	}
+	var ps []string
+	sub := &specTranslator{u: tr.u, rename: map[string]string{}, ghostOf: tr.ghostOf, done: tr.done, bound: map[string]bool{}}
+	for _, p := range sf.Params {
+		ps = append(ps, p.Name+" "+p.Type)
+		sub.bound[p.Name] = true
+	}
+	body, err := sub.translate(sf.Body)
+	if err != nil {
+		return err
+	}
+	tr.helpers = append(tr.helpers, sub.helpers...)
+	tr.helpers = append(tr.helpers, fmt.Sprintf("func vspec_%s(%s) %s { return %s }", sf.Name, strings.Join(ps, ", "), sf.Result, body))
+	return nil
+}
+
+// quant translates a bounded quantifier into an immediately-invoked loop.
+func (tr *specTranslator) quant(forall bool, x *ast.CallExpr) (string, error) {
+	bl := x.Args[0].(*ast.BasicLit)
+	binders, _ := strconv.Unquote(bl.Value)
+	ps, err := parseParams(binders)
+	if err != nil || len(ps) != 1 {
+		return "", fmt.Errorf("only single-variable quantifiers are executable")
+	}
+	v := ps[0].Name
+	body := x.Args[1]
+	var guard ast.Expr
+	if forall {
+		if c, ok := body.(*ast.CallExpr); ok {
+			if id, ok := c.Fun.(*ast.Ident); ok && id.Name == "__imp" {
+				guard = c.Args[0]
+			}
+		}
+	} else {
+		guard = body
+	}
+	if guard == nil {
+		return "", fmt.Errorf("quantifier without a range guard")
+	}
+	lo, hi, ok := tr.bounds(v, guard)
+	if !ok {
+		return "", fmt.Errorf("quantifier range not recognised")
+	}
+	if tr.bound == nil {
+		tr.bound = map[string]bool{}
+	}
+	tr.bound[v] = true
+	b, err := tr.translate(body)
+	delete(tr.bound, v)
+	if err != nil {
+		return "", err
+	}
+	if forall {
+		return fmt.Sprintf("func() bool { for %s := %s(%s); %s < %s(%s); %s++ { if !(%s) { return false } }; return true }()", v, ps[0].Type, lo, v, ps[0].Type, hi, v, b), nil
+	}
+	return fmt.Sprintf("func() bool { for %s := %s(%s); %s < %s(%s); %s++ { if %s { return true } }; return false }()", v, ps[0].Type, lo, v, ps[0].Type, hi, v, b), nil
+}
+
+// bounds finds lo <= v and v < hi among the conjuncts of guard.
+func (tr *specTranslator) bounds(v string, guard ast.Expr) (string, string, bool) {
+	var conj []ast.Expr
+	var flat func(e ast.Expr)
+	flat = func(e ast.Expr) {
+		e = ast.Unparen(e)
+		if b, ok := e.(*ast.BinaryExpr); ok && b.Op == token.LAND {
+			flat(b.X)
+			flat(b.Y)
+			return
+		}
+		conj = append(conj, e)
+	}
+	flat(guard)
+	isV := func(e ast.Expr) bool {
+		id, ok := ast.Unparen(e).(*ast.Ident)
+		return ok && id.Name == v
+	}
+	lo, hi := "", ""
+	for _, cj := range conj {
+		b, ok := cj.(*ast.BinaryExpr)
+		if !ok {
+			continue
+		}
+		switch {
+		case b.Op == token.LEQ && isV(b.Y):
+			s, err := tr.translate(b.X)
+			if err == nil {
+				lo = s
+			}
+		case b.Op == token.LSS && isV(b.Y):
+			s, err := tr.translate(b.X)
+			if err == nil {
+				lo = "(" + s + ")+1"
+			}
+		case b.Op == token.GEQ && isV(b.X):
+			s, err := tr.translate(b.Y)
+			if err == nil {
+				lo = s
+			}
+		case b.Op == token.LSS && isV(b.X):
+			s, err := tr.translate(b.Y)
+			if err == nil {
+				hi = s
+			}
+		case b.Op == token.LEQ && isV(b.X):
+			s, err := tr.translate(b.Y)
+			if err == nil {
+				hi = "(" + s + ")+1"
+			}
+		}
+	}
+	return lo, hi, lo != "" && hi != ""
 }
